@@ -311,8 +311,11 @@ def replay_rdf(inputs):
     rng = np.random.default_rng(seed)
     labels = inputs.get('labels') or [['A', 'B', 'A', 'B'], ['A', 'A', 'B', 'B'], ['B', 'A', 'C', 'A'], ['A', 'A', 'A', 'A']][seed % 4]
     traj, sites, info = hopping_system(seed, n_frames=inputs.get('n_frames', 25), n_diff=2, n_sites=len(labels), labels=labels,
-                                       n_frame_atoms=5, frame_symbols=('O', 'O', 'P'), hop_prob=0.3, interleave=bool(seed % 2))  # 2 Li, 4 O, 1 P: unequal counts
+                                       n_frame_atoms=5, frame_symbols=('O', 'O', 'P'), hop_prob=0.3, interleave=bool(seed % 2),  # 2 Li, 4 O, 1 P: unequal counts
+                                       edge_transit=(3, 4) if inputs.get('edge', seed % 3 == 0) else None)  # an atom that starts, and one that ends, the run between sites
     bad = []
+    if inputs.get('displacement_mode', seed % 5 in (1, 2)):
+        _ = traj.displacements  # the same trajectory object was used for a displacement analysis before (it is held in displacement mode now)
     lat = __import__('pymatgen.core', fromlist=['Lattice']).Lattice(__import__('numpy').array(traj.lattice, dtype=float).reshape(3, 3))  # the raw cell, not the library's get_lattice()
     max_dist, res = float(inputs.get('max_dist', 3.0)), float(inputs.get('resolution', 0.5))
     # ---- between species
@@ -447,7 +450,8 @@ def bounded_rdf(tier, seed):
             if r['reproduced']:
                 st.violation('rdf-exact-edges', r['detail'], 'verif.props.c11:replay_rdf_exact', inp)
     for c in range(n):
-        inp = {'seed': int(rng.integers(1, 10 ** 6)), 'max_dist': float(rng.choice([2.0, 3.0, 4.5])), 'resolution': float(rng.choice([0.25, 0.5, 1.0]))}
+        inp = {'seed': int(rng.integers(1, 10 ** 6)), 'max_dist': float(rng.choice([2.0, 3.0, 4.5])), 'resolution': float(rng.choice([0.25, 0.5, 1.0])),
+               'edge': c % 2 == 0, 'displacement_mode': c % 3 == 1}
         r = st.guard(replay_rdf, inp)
         if r is None:
             continue
